@@ -49,6 +49,18 @@ CLAIMS = {
  "C08": ("interpretation of the scan-restriction function over its finite enum domain (all child restrictions x node kinds; leaves over all comparators), symbolic linear evaluation of the column index expressions, constant flag tables, per-iteration path rule for row/total accounting, positional agreement of counter arguments",
          "Exhaustive for the pruning clause over the value domain {none, v4, v6}; structural for key/condition population, flag tables, accounting and counter positions. Equality with an independent aggregation over all databases and conditions is NOT decided.",
          "go/types + go/cfg; column layout 'IPv4 entries first' (dbData)"),
+ "C16": ("range-mutation hazard rule (reassignment of a slice inside a range over it) plus shape rules for the selection / negation / regexp code",
+         "Decides the crash shape (removal while ranging) is absent and negations are applied after selections over the whole result. Set equality of the selection for all argument lists is NOT decided.",
+         "go/types"),
+ "C26": ("who-may-call rule (no overwriting Map.Set in csvimport), per-iteration path rule for row accounting and the time-regression guard, sorted-before-write rule, counter positions",
+         "Decides that every row read is counted exactly once, imported iff inserted additively, regressions are rejected before insertion, blocks are written in ascending time and flushed before success. That stored rows equal the file's as values is NOT decided.",
+         "go/types + go/cfg"),
+ "C27": ("dominance rule final-writeout-before-close in Manager.update, map-order hazard rule on IfaceMatcher.FindMatch, field coverage of CaptureConfig.Equals / RingBufferConfig.Equals, diff-set rule in updateSelected",
+         "Decides the ordering, determinism and change-detection conditions; convergence over update sequences and the data written are NOT decided.",
+         "go/types + go/cfg"),
+ "C31": ("per-path acquire/release automaton over both query entry points, who-may-call on the work functions, allocation-site rule for the semaphore",
+         "Decides that every path that acquired a slot has exactly one deferred release registered before any further return, that the refused branch does no work and answers 'too many requests', and that no caller bypasses the gate. Counts under real schedules (channel semantics of TryAddFor) are trusted, not decided.",
+         "go/types + go/cfg; concurrency.Semaphore.TryAddFor returns a release function iff it acquired"),
  "C23": ("per-path packed-record layout extraction (index/slice/unsafe-cast/copy at cursor+const) with writer/reader table comparison",
          "Decides that every field LocalBuffer.Add stores lies inside the cursor stride, fields are disjoint, and Add/Next agree on offset, width, stride and version flag per role; refusal stores nothing. Exact for the layout clause (the one the defect F11 lived in); FIFO behaviour over operation sequences is not decided.",
          "go/types + go/cfg; gc/amd64 sizes for unsafe casts"),
